@@ -311,3 +311,55 @@ def wrapper(kind, cfg, dim, maxiter, oblig, maxfun=None):
         ctx.observe('fopt', L.scalar(out[1]))
         return oblig(Rec('wrapper', ctx, w, None, wrapper=kind, out=out, x0=x0, maxiter=maxiter, maxfun=maxfun))
     return h
+
+
+# ------------------------------------------------------------------------------------- tight / clip range modes
+BOX_POOL = [([0.0], [1.0]), ([-2.5], [-2.5]), ([-1e20], [3.0]),
+            ([0.0, -1.0], [1.0, 4.0]), ([1.0, 2.0], [1.0, 1e20]), ([-3.0, 0.5], [-1.0, 0.5])]
+
+
+def mode_step(kind, mode, lo, hi, cons, oblig, steps=2):
+    """real steps of a solver configured with tight/clip ranges built from a CONCRETE box (the symbolic pipeline needs
+    text); the initial point, the cost and the extra constraints stay symbolic"""
+    dim = len(lo)
+
+    def h(ctx):
+        w = L.World(ctx, dim, box=False, cons=cons)
+        s = make_solver(kind, dim)
+        s.SetEvaluationLimits(L.BIG, L.BIG)
+        s.SetTermination(L.never())
+        kw = dict(tight=True) if mode == 'tight' else dict(clip=(mode == 'clip=True'))
+        stubs.ORACLE.override = FixedDraws()
+        try:
+            s.SetStrictRanges(list(lo), list(hi), **kw)
+        except ZeroDivisionError:
+            return [('configuration-rejected-before-any-evaluation', const(mode == 'tight' and list(lo) == list(hi) and not w.calls))]
+        finally:
+            stubs.ORACLE.override = None
+        w.lo, w.hi = [R(v) for v in lo], [R(v) for v in hi]
+        if cons:
+            s.SetConstraints(w.constraint)
+        s.SetObjective(w.cost)
+        if kind == 'Powell':
+            install_brent_contract(ctx)
+        x0 = ctx.reals('x', dim)
+        if kind in ('DE', 'DE2'):
+            for i in range(s.nPop):
+                s.population[i] = list(x0) if i == 0 else [R(lo[j]) + R(0) for j in range(dim)]
+            stubs.ORACLE.override = FixedDraws() if mode != 'clip=False' else None
+        else:
+            s.population[0] = list(x0)
+        obs = []
+        pre = snapshot(s, w)
+        pre['x0'] = x0
+        try:
+            for g in range(steps):
+                before = snapshot(s, w)
+                msg = s.Step(callback=w.callback)
+                post = snapshot(s, w)
+                obs += oblig(Rec('mode-step', ctx, w, s, pre=pre, before=before, post=post, msg=msg, g=g, solver=kind, mode=mode, evalmon=None))
+        finally:
+            stubs.ORACLE.override = None
+        obs.append(('ran', const(True)))
+        return obs
+    return h
